@@ -1,7 +1,7 @@
 """C18 - every XML parameter reaches the simulation with its value and meaning intact (binding tables, E5)."""
 import re
 
-from ..model import walk, strip, is_call, call_obj, call_args, render, short, always_exits, AnalysisBroken
+from ..model import walk, strip, is_call, call_obj, call_args, render, short, always_exits, AnalysisBroken, def_chain
 from .c10 import product_fns
 
 EXPLANATION = ("Binding-table extraction (E5): for each of the three reader functions the table (XML tag, lower-casing, presence test, "
@@ -132,79 +132,243 @@ def _wrappers(fn):
     return out
 
 
+def _lower_flag(a):
+    if len(a) > 2:
+        v = strip(a[2])
+        if v.get("k") == "CXXDefaultArgExpr":
+            v = strip(v.get("default_arg", {}))
+        return bool(v.get("v")) if v.get("k") == "CXXBoolLiteralExpr" else None
+    return False
+
+
+def _tag_of(fn, e):
+    from ..model import expand
+    lits = [x.get("v") for x in walk(expand(fn, e)) if x.get("k") == "StringLiteral"]
+    if len(lits) != 1:
+        raise AnalysisBroken("%s: the tag handed to get_string_value (%s) is not a string literal: table-driven reader, the tag -> field binding is not decided" % (fn["qn"], short(e, 50)))
+    return lits[0]
+
+
+def _presence_fact(cond, pol, did):
+    """does (cond, pol) establish that optional local `did` holds a value?  None if the condition is not about it"""
+    c = strip(cond)
+    while True:
+        if c.get("k") == "ParenExpr" and c.get("c"):
+            c = strip(c["c"][0])
+            continue
+        if c.get("k") == "UnaryOperator" and c.get("op") == "!":
+            pol = not pol
+            c = strip(c["c"][0])
+            continue
+        break
+    if c.get("k") == "BinaryOperator" and c.get("op") in ("==", "!="):
+        l, r = strip(c["c"][0]), strip(c["c"][1])
+        for x, y in ((l, r), (r, l)):
+            if y.get("k") == "CXXBoolLiteralExpr":
+                sub = _presence_fact(x, pol if (bool(y.get("v")) == (c["op"] == "==")) else not pol, did)
+                if sub is not None:
+                    return sub
+        return None
+    if c.get("k") == "CXXMemberCallExpr" and (c.get("callee", "").endswith("::has_value") or c.get("callee", "").endswith("operator bool")):
+        o = call_obj(c)
+        o = strip(o) if isinstance(o, dict) else {}
+        if o.get("k") == "DeclRefExpr" and o["ref"].get("did") == did:
+            return pol
+    return None
+
+
+def _value_uses(fn, did):
+    """nodes that read the contained value of optional local `did`"""
+    out = []
+    for n in walk(fn["body"]):
+        k = n.get("k")
+        if k == "CXXMemberCallExpr" and n.get("callee", "").endswith("::value"):
+            o = call_obj(n)
+            o = strip(o) if isinstance(o, dict) else {}
+            if o.get("k") == "DeclRefExpr" and o["ref"].get("did") == did:
+                out.append(n)
+        elif k == "CXXOperatorCallExpr" and n.get("op") in ("*", "->") and len(n.get("c", [])) >= 2:
+            o = strip(n["c"][1])
+            if o.get("k") == "DeclRefExpr" and o["ref"].get("did") == did:
+                out.append(n)
+    return out
+
+
+def _field_name(fn, e, assigned_from_local):
+    """the field an operand designates: a member access, a reference local bound to one, a value local initialised from one, or a
+    local whose value was stored in exactly one field"""
+    e = strip(e)
+    while e.get("k") == "ParenExpr" and e.get("c"):
+        e = strip(e["c"][0])
+    if e.get("k") == "MemberExpr" and (e.get("ref") or {}).get("dk") == "Field":
+        return e["ref"]["name"]
+    if e.get("k") == "DeclRefExpr" and (e.get("ref") or {}).get("dk") == "Var":
+        did = e["ref"]["did"]
+        from ..model import stable_locals
+        st = dict(stable_locals(fn))
+        if did not in st:
+            # a reference local is bound once: assigning to it writes the object it designates
+            for v in walk(fn["body"]):
+                if v.get("k") == "Var" and v.get("did") == did and (v.get("t") or "").rstrip().endswith("&") and isinstance(v.get("init"), dict):
+                    st[did] = v["init"]
+        if did in st:
+            i = strip(st[did])
+            while i.get("k") == "ParenExpr" and i.get("c"):
+                i = strip(i["c"][0])
+            if i.get("k") == "MemberExpr" and (i.get("ref") or {}).get("dk") == "Field":
+                return i["ref"]["name"]
+        fs = assigned_from_local.get(did, set())
+        if len(fs) == 1:
+            return next(iter(fs))
+    return None
+
+
+def _operand(fn, e, afl):
+    f = _field_name(fn, e, afl)
+    if f is not None:
+        return f
+    e = strip(e)
+    if e.get("k") in ("IntegerLiteral", "FloatingLiteral") and float(e["v"]) == int(float(e["v"])):
+        return str(int(float(e["v"])))
+    return render(e)
+
+
+_FLIP = {"<": ">", "<=": ">=", ">": "<", ">=": "<=", "==": "==", "!=": "!="}
+
+
+def _conversions(prog, fn, chain):
+    """std::sto* conversions and INF handling on the value path (looking one level into repository helpers that were not inlined)"""
+    conv, text = [], []
+    seen = set()
+    repo_keys = {g["key"] for g in prog.repo_functions()}
+
+    def visit(nodes, depth):
+        for e in nodes:
+            text.append(render(e))
+            for x in walk(e):
+                if x.get("k") == "StringLiteral":
+                    text.append('"%s"' % x.get("v"))
+                if is_call(x) and "infinity" in x.get("callee", ""):
+                    text.append("infinity")
+                if is_call(x):
+                    c = x.get("callee", "")
+                    if c.startswith("std::sto"):
+                        conv.append(c)
+                    elif depth < 2 and c not in seen:
+                        seen.add(c)
+                        for g in prog.by_qn.get(c, []):
+                            if isinstance(g.get("body"), dict) and g["key"] in repo_keys:
+                                visit([g["body"]], depth + 1)
+    visit(chain, 0)
+    t = " ".join(text)
+    return sorted(set(conv)), ("infinity" in t and '"inf"' in t)
+
+
 def extract_table(prog, fn):
-    rows = []
-    cur = None
+    """value-flow extraction: every read of a tag (string literal -> get_string_value), the optional local holding it, the presence
+    test that guards the uses of its value, the field(s) the value flows into (through locals, def_chain), the conversions on that
+    path and the throwing comparisons on the field.  Independent of statement order and nesting."""
+    fi = prog.index(fn)
     wrappers = _wrappers(fn)
-    for s in fn["body"]["c"]:
-        if any(d.get("k") == "Var" and d.get("did") in wrappers for d in walk(s)):
+    reads = []
+    for n in walk(fn["body"]):
+        if fi.in_lambda(n) is not None:
             continue
-        wcalls = [n for n in walk(s) if n.get("k") == "CXXOperatorCallExpr" and n.get("op") == "()" and len(n.get("c", [])) >= 3 and strip(n["c"][1]).get("k") == "DeclRefExpr" and strip(n["c"][1])["ref"].get("did") in wrappers]
-        if wcalls:
-            wc = wcalls[0]
-            lits = [x.get("v") for x in walk(wc["c"][2]) if x.get("k") == "StringLiteral"]
-            cur = {"tag": lits[0] if lits else None, "lower": wrappers[strip(wc["c"][1])["ref"]["did"]], "var": None, "node": wc, "presence": True, "assign": [], "valid": [], "value_before_presence": False}
-            rows.append(cur)
-            for a in walk(s):
-                if a.get("k") in ("BinaryOperator", "CXXOperatorCallExpr") and a.get("op") == "=":
-                    lhs = strip(a["c"][0] if a["k"] == "BinaryOperator" else a["c"][1])
-                    rhs = a["c"][1] if a["k"] == "BinaryOperator" else a["c"][2]
-                    if lhs.get("k") == "MemberExpr" and lhs["ref"].get("dk") == "Field" and any(x is wc for x in walk(rhs)):
-                        conv = [x.get("callee") for x in walk(rhs) if is_call(x) and x.get("callee", "").startswith("std::sto")]
-                        inf = "infinity" in render(rhs) and '"inf"' in render(rhs)
-                        cur["assign"].append((lhs["ref"]["name"], conv[0] if conv else None, inf, a))
-            continue
-        gs = [n for n in walk(s) if is_call(n) and n.get("callee") == "parameter_reader::get_string_value"]
-        if gs:
-            a = call_args(gs[0])
-            lits = [x.get("v") for x in walk(a[1]) if x.get("k") == "StringLiteral"]
-            var = [d for d in walk(s) if d.get("k") == "Var"]
-            lower = False
-            if len(a) > 2:
-                v = strip(a[2])
-                if v.get("k") == "CXXDefaultArgExpr":
-                    v = strip(v.get("default_arg", {}))
-                lower = bool(v.get("v")) if v.get("k") == "CXXBoolLiteralExpr" else None
-            cur = {"tag": lits[0] if lits else None, "lower": lower, "var": var[0]["did"] if var else None, "node": gs[0], "presence": None, "assign": [], "valid": [], "value_before_presence": False}
-            rows.append(cur)
-            continue
-        if cur is None:
-            continue
-        uses_var = any(x.get("k") == "DeclRefExpr" and x["ref"]["did"] == cur["var"] for x in walk(s))
-        if s.get("k") == "IfStmt":
-            c = strip(s["cond"])
-            if uses_var and "has_value" in render(c):
-                neg = c.get("k") == "UnaryOperator" and c.get("op") == "!"
-                cur["presence"] = neg and always_exits(s["then"]) and any(x.get("k") == "CXXThrowExpr" for x in walk(s["then"]))
+        if n.get("k") == "CXXOperatorCallExpr" and n.get("op") == "()" and len(n.get("c", [])) >= 3 and strip(n["c"][1]).get("k") == "DeclRefExpr" and strip(n["c"][1])["ref"].get("did") in wrappers:
+            reads.append({"tag": _tag_of(fn, n["c"][2]), "lower": wrappers[strip(n["c"][1])["ref"]["did"]], "node": n, "wrapper": True})
+        elif is_call(n) and n.get("callee") == "parameter_reader::get_string_value":
+            a = call_args(n)
+            reads.append({"tag": _tag_of(fn, a[1]), "lower": _lower_flag(a), "node": n, "wrapper": False})
+    # the local that holds each read
+    holders = {}
+    for v in walk(fn["body"]):
+        if v.get("k") == "Var" and isinstance(v.get("init"), dict):
+            for r in reads:
+                if any(x is r["node"] for x in walk(v["init"])):
+                    holders[id(r["node"])] = v
+    # field assignments
+    assigns = []
+    afl = {}
+    for a in walk(fn["body"]):
+        if a.get("k") in ("BinaryOperator", "CXXOperatorCallExpr") and a.get("op") == "=":
+            lhs = a["c"][0] if a["k"] == "BinaryOperator" else a["c"][1]
+            rhs = a["c"][1] if a["k"] == "BinaryOperator" else a["c"][2]
+            f = _field_name(fn, lhs, {})
+            if f is None:
                 continue
-            cmp_ = [x for x in walk(c) if x.get("k") == "BinaryOperator" and x.get("op") in ("<", "<=", ">", ">=", "==", "!=")]
-            throws = always_exits(s["then"]) and any(x.get("k") == "CXXThrowExpr" for x in walk(s["then"]))
-            for x in cmp_:
-                l, r = strip(x["c"][0]), strip(x["c"][1])
-                lf = l["ref"]["name"] if l.get("k") == "MemberExpr" else render(l)
-                rf = r["ref"]["name"] if r.get("k") == "MemberExpr" else (str(int(float(r["v"]))) if r.get("k") in ("IntegerLiteral", "FloatingLiteral") and float(r["v"]) == int(float(r["v"])) else render(r))
-                cur["valid"].append((lf, x["op"], rf, throws, s))
+            chain = list(def_chain(fn, rhs, depth=6))
+            assigns.append((f, a, rhs, chain))
+            r0 = strip(rhs)
+            if r0.get("k") == "DeclRefExpr" and (r0.get("ref") or {}).get("dk") == "Var":
+                afl.setdefault(r0["ref"]["did"], set()).add(f)
+    # throwing comparisons
+    valids = []
+    unknown_valid = []
+    for s_ in walk(fn["body"]):
+        if s_.get("k") != "IfStmt" or fi.in_lambda(s_) is not None:
             continue
-        e = strip(s)
-        if uses_var and cur["presence"] is None and ".value()" in render(e).replace(" ", "") or (uses_var and cur["presence"] is None and any(x.get("k") == "CXXMemberCallExpr" and x.get("callee", "").endswith("::value") for x in walk(s))):
-            cur["value_before_presence"] = True
-        for a in walk(s):
-            if a.get("k") in ("BinaryOperator", "CXXOperatorCallExpr") and a.get("op") == "=":
-                lhs = strip(a["c"][0] if a["k"] == "BinaryOperator" else a["c"][1])
-                rhs = a["c"][1] if a["k"] == "BinaryOperator" else a["c"][2]
-                if lhs.get("k") == "MemberExpr" and lhs["ref"].get("dk") == "Field":
-                    refs_var = any(x.get("k") == "DeclRefExpr" and x["ref"]["did"] == cur["var"] for x in walk(rhs))
-                    # the value may pass through a local string (max_inner_pressure_str)
-                    via_local = False
-                    for x in walk(rhs):
-                        if x.get("k") == "DeclRefExpr" and x["ref"].get("dk") == "Var" and x["ref"]["did"] != cur["var"]:
-                            for d in walk(fn["body"]):
-                                if d.get("k") == "Var" and d.get("did") == x["ref"]["did"] and isinstance(d.get("init"), dict) and any(y.get("k") == "DeclRefExpr" and y["ref"]["did"] == cur["var"] for y in walk(d["init"])):
-                                    via_local = True
-                    if refs_var or via_local:
-                        conv = [x.get("callee") for x in walk(rhs) if is_call(x) and x.get("callee", "").startswith("std::sto")]
-                        inf = "infinity" in render(rhs) and '"inf"' in render(rhs)
-                        cur["assign"].append((lhs["ref"]["name"], conv[0] if conv else None, inf, a))
+        if not (always_exits(s_["then"]) and any(x.get("k") == "CXXThrowExpr" for x in walk(s_["then"]))):
+            continue
+        c = strip(s_["cond"])
+        if "has_value" in render(c):
+            continue
+        disj = []
+        todo = [c]
+        while todo:
+            x = strip(todo.pop())
+            while x.get("k") == "ParenExpr" and x.get("c"):
+                x = strip(x["c"][0])
+            if x.get("k") == "BinaryOperator" and x.get("op") == "||":
+                todo.extend(x["c"])
+            else:
+                disj.append(x)
+        for x in disj:
+            if x.get("k") == "BinaryOperator" and x.get("op") in _FLIP:
+                l, r = _operand(fn, x["c"][0], afl), _operand(fn, x["c"][1], afl)
+                valids.append((l, x["op"], r, s_))
+                valids.append((r, _FLIP[x["op"]], l, s_))
+            else:
+                unknown_valid.append((x, s_))
+    rows = []
+    for r in reads:
+        row = {"tag": r["tag"], "lower": r["lower"], "node": r["node"], "assign": [], "valid": [], "value_before_presence": False, "unknown_valid": []}
+        h = holders.get(id(r["node"]))
+        row["var"] = h.get("did") if h else None
+        for (f, a, rhs, chain) in assigns:
+            flows = any(x is r["node"] for e in chain for x in walk(e)) or (h is not None and any(x.get("k") == "DeclRefExpr" and (x.get("ref") or {}).get("did") == h.get("did") for e in chain for x in walk(e)))
+            if flows:
+                conv, inf = _conversions(prog, fn, chain)
+                row["assign"].append((f, conv[0] if len(conv) == 1 else (None if not conv else "+".join(conv)), inf, a))
+        if r["wrapper"]:
+            row["presence"] = True
+        elif h is None:
+            row["presence"] = None
+        else:
+            did = h.get("did")
+            uses = _value_uses(fn, did)
+            unguarded = [u for u in uses if not any(_presence_fact(c_, p_, did) is True for (c_, p_) in fi.guards(u))]
+            row["value_before_presence"] = bool(unguarded)
+            mandatory = False
+            for s_ in walk(fn["body"]):
+                if s_.get("k") != "IfStmt":
+                    continue
+                pf = _presence_fact(s_["cond"], True, did)
+                if pf is None:
+                    continue
+                absent = s_.get("else") if pf else s_["then"]
+                if isinstance(absent, dict) and always_exits(absent) and any(x.get("k") == "CXXThrowExpr" for x in walk(absent)):
+                    mandatory = True
+            row["presence"] = mandatory and bool(uses) and not unguarded
+        fields = {f for (f, _, _, _) in row["assign"]}
+        first_assign = min([fi.order[id(a)] for (_, _, _, a) in row["assign"]], default=None)
+        for (l, op, rr, s_) in valids:
+            if l in fields and first_assign is not None and fi.order[id(s_)] > first_assign:
+                row["valid"].append((l, op, rr, True, s_))
+        for (x, s_) in unknown_valid:
+            names = {_field_name(fn, y, afl) for y in walk(x)}
+            if names & fields:
+                row["unknown_valid"].append(s_)
+        rows.append(row)
     return rows
 
 
@@ -245,14 +409,11 @@ def run(rep, prog, tier):
             for (op, rhs) in valids:
                 if (field, op, rhs) in got:
                     rep.ok("C18.validation-field", prog, fn, r["node"], "<%s>: rejects %s %s %s" % (tag, field, op, rhs))
+                elif r.get("unknown_valid"):
+                    raise AnalysisBroken("%s: the check on %s after reading <%s> has a form that is not decided (%s)" % (qn, field, tag, short(r["unknown_valid"][0]["cond"], 60)))
                 else:
                     rep.violation("C18.validation-field", prog, fn, r["node"], "<%s>: missing validation %s %s %s" % (tag, field, op, rhs),
-                                  "after reading <%s> the reader must throw when %s %s %s; found validations %s" % (tag, field, op, rhs, got))
-            for (lf, op, rf) in got:
-                fields_here = {field}
-                if lf not in fields_here and rf not in fields_here:
-                    rep.violation("C18.validation-field", prog, fn, r["node"], "validation after <%s> tests %s" % (tag, lf),
-                                  "the check that follows the assignment of <%s> tests '%s %s %s' instead of the field just read (%s): out-of-range values of <%s> are accepted" % (tag, lf, op, rf, field, tag))
+                                  "after reading <%s> the reader must throw when %s %s %s; found validations %s" % (tag, field, op, rhs, sorted(set(got))))
     order_preserved(rep, prog)
     consumers(rep, prog)
     contact_strengths(rep, prog)
